@@ -159,4 +159,15 @@ META = {
                 "c13-detach-kind, c13-peer-detach-error-lost (detach/close crossing a peer detach of the other kind).",
         "technique": "Coq proof (state invariant over event lists) + extracted-model-vs-engine correspondence; link clauses by direct oracle only (partial)",
     },
+    "C19": {
+        "text": "Theorems (Coq, closed) about the model of the listener's SASL layer (Auth/SaslListener.v): whatever the client does, if the listener ever writes "
+                "outcome OK, the AMQP header or its open, or accept() returns a connection, the client's actions began with exactly the valid exchange; the first "
+                "action that departs from it fails the negotiation at once with an error from accept() and nothing granted. The model is run against the real "
+                "listener (PLAIN and three SCRAM variants) on abstracted scripts every run; concrete byte-level scripts (credential variants, malformed and "
+                "fragmented frames) and the SCRAM client against a scripted, tampering server are checked by the direct oracle.",
+        "design_ref": "DESIGN.md section 4, C19",
+        "note": "Trusted: Coq kernel, extraction, the harness's own SCRAM arithmetic (RFC vectors). Partial: no Coq model of the SCRAM client. Fixed defects: PLAIN "
+                "accepted extra NUL-separated fields; SCRAM listener accepted a second init (51ebee0).",
+        "technique": "Coq proof (induction over client action sequences) + extracted-model-vs-listener correspondence; client clauses by direct oracle only (partial)",
+    },
 }
